@@ -11,6 +11,7 @@ pub use model::{Addresses, Header, SEPARATOR, TCP4, TCP6, UNKNOWN};
 pub use model::{PROTOCOL_PREFIX, PROTOCOL_SUFFIX};
 use std::borrow::Cow;
 use std::cmp::min;
+use std::iter::Peekable;
 use std::net::{AddrParseError, Ipv4Addr, Ipv6Addr};
 use std::str::{from_utf8, FromStr};
 
@@ -114,7 +115,7 @@ fn parse_header(header: &str) -> Result<Header, ParseError> {
 
 /// Parses the addresses and ports from a PROXY protocol header for IPv4 and IPv6.
 fn parse_addresses<'a, T: FromStr<Err = AddrParseError>, I: Iterator<Item = &'a str>>(
-    iterator: &mut I,
+    iterator: &mut Peekable<I>,
 ) -> Result<(T, T, u16, u16), ParseError> {
     let source_address = iterator.next().ok_or(ParseError::MissingSourceAddress)?;
     let destination_address = iterator
@@ -122,6 +123,11 @@ fn parse_addresses<'a, T: FromStr<Err = AddrParseError>, I: Iterator<Item = &'a 
         .ok_or(ParseError::MissingDestinationAddress)?;
     let source_port = iterator.next().ok_or(ParseError::MissingSourcePort)?;
     let destination_port = iterator.next().ok_or(ParseError::MissingDestinationPort)?;
+
+    // A buffer that ends right after the separator has not received the port yet.
+    if destination_port.is_empty() && iterator.peek().is_none() {
+        return Err(ParseError::MissingDestinationPort);
+    }
 
     let source_address = source_address
         .parse::<T>()
